@@ -242,7 +242,11 @@ pub(crate) mod inner {
             T: Default,
         {
             let mutex = self.0.get_or_init(Default::default);
-            let mut guard = mutex.write().unwrap();
+            // If creating a formatter panicked, the cache is still valid (nothing was inserted):
+            // don't make every later formatting panic too because of the poisoned lock.
+            let mut guard = mutex
+                .write()
+                .unwrap_or_else(std::sync::PoisonError::into_inner);
             f(&mut guard)
         }
     }
